@@ -49,7 +49,10 @@ def gen(rng, broker, tier):
             ov = {"node": t, "subs": sorted(rng.sample(later, rng.randint(0, min(2, len(later))))) if later else [],
                   "kind": rng.choice(["async", "sync"]), "tag": f"ov{d}"}
         deliveries.append({"override": ov, "x": rng.randint(0, 99), "fail": rng.choice([None, None, None, rng.randrange(n)]),
-                           "retries": rng.choice([0, 1])})
+                           "retries": rng.choice([0, 1]),
+                           # the payload carries a key named like a dependency parameter (actor with **kwargs, Basic converter):
+                           # the call cannot be made - a failed execution, never a silently replaced dependency
+                           "collide": rng.random() < 0.1})
     return {"nodes": nodes, "roots": roots, "deliveries": deliveries, "conv": rng.choice(["basic", "pydantic"]),
             "negative": rng.choice([None, None, "positional-only", "non-default-arg"]),
             "knobs": {"step_cost": rng.choice([0, 0, 1, "rand"])}}
@@ -163,7 +166,8 @@ async def _main(sim, sc, out):
     params = ["x", "y=5"] + [f"r{j}" for j in roots]
     ns = {"_body": abody}
     call = "{" + ", ".join(f"{p.split('=')[0]!r}: {p.split('=')[0]}" for p in params) + "}"
-    exec(f"async def act(x, y=5, *, {', '.join('r%d' % j for j in roots)}):\n    return await _body({call})\n", ns)  # noqa: S102
+    extra_kw = ", **extra" if sc["conv"] == "basic" else ""
+    exec(f"async def act(x, y=5, *, {', '.join('r%d' % j for j in roots)}{extra_kw}):\n    return await _body({call})\n", ns)  # noqa: S102
     act = ns["act"]
     act.__annotations__ = {"x": int, "y": int, **{f"r{j}": Annotated[Any, deps[j]] for j in roots}}
     router = r.Router()
@@ -184,7 +188,9 @@ async def _main(sim, sc, out):
         cur["delivery"] = di
         cur["fail"] = d["fail"]
         mid = f"m{di}"
-        job = r.Job("act", queue="q", id_=mid, args={"x": d["x"]}, retries=d["retries"], store_result=False, _connection=conn)
+        collide = bool(d.get("collide")) and sc["conv"] == "basic"
+        jargs = {"x": d["x"], **({f"r{roots[0]}": "value-from-payload"} if collide else {})}
+        job = r.Job("act", queue="q", id_=mid, args=jargs, retries=d["retries"], store_result=False, _connection=conn)
         await job.enqueue()
         # reference evaluation
         used_counts: dict = {}
@@ -208,7 +214,7 @@ async def _main(sim, sc, out):
             return any(reaches(j, target) for j in version[i][1])
 
         want = {"x": d["x"], "y": 5, **{f"r{j}": ref(j) for j in roots}}
-        will_fail = d["fail"] is not None and any(reaches(j, d["fail"]) for j in roots)
+        will_fail = (d["fail"] is not None and any(reaches(j, d["fail"]) for j in roots)) or collide
         runs = (d["retries"] + 1) if will_fail else 1
         w = r.Worker(routers=[router], messages_limit=runs, graceful_shutdown_time=3.0, handle_signals=[], _connection=conn)
         try:
